@@ -52,10 +52,8 @@ func (c04) Nontrivial(c *sim.Case, st *sim.Stats) bool {
 
 func (c04) Gen(r *sim.Rand, c *sim.Case, tier string) {
 	flags := int(r.Uint64()) & foreign.FAllBits
-	if !Wild {
-		// listed findings: text of runs nested in hyperlink/smartTag/ins/sdt/fldSimple is lost; both have witnesses
-		flags &^= foreign.FNestedRuns | foreign.FHyperlink
-	}
+	// (runs nested in hyperlink/smartTag/ins/sdt/fldSimple were kept out of the search lane while their loss was a listed finding;
+	// repaired in repo 9dca3b0, the witnesses stay as regression cases)
 	c.Cfg["features"] = flags
 	ops := []sim.Op{{K: "foreign", I: []int{int(r.Uint64() >> 40), flags, r.Intn(3)}}}
 	g := world.NewGen(r)
